@@ -17,14 +17,12 @@ structure St where
   /-- the tx-pool overlay (`config … p`): `none` = `pool: None` -/
   pool : Option Pool := none
 
-/-- `MAX_PREFIX_SEARCH_SIZE = u16::MAX` (`util/indexer/src/service.rs`) -/
-def maxPrefixSearchSize : Nat := 65535
-
-/-- what a DESCENDING walk can see: the rows of the searched family above the seek key
+/-- (`MAX_PREFIX_SEARCH_SIZE` is translated from `util/indexer/src/service.rs`: `Gen/Indexer.lean`, `gen/Indexer.json`.)
+what a DESCENDING walk can see: the rows of the searched family above the seek key
 `prefix ‖ 0xff × (MAX_PREFIX_SEARCH_SIZE − args_len)` are never reached (`Lemmas/IndexerPool.lean`:
 `descView_eq` — nothing is hidden while keys are shorter than the seek key) -/
 def viewOf (s : Store) (desc : Bool) (pre : List Nat) (q : Script) : Store :=
-  if desc then descView maxPrefixSearchSize s pre q.args.length else s
+  if desc then descView MAX_PREFIX_SEARCH_SIZE s pre q.args.length else s
 
 /-! ### parsing -/
 
